@@ -428,12 +428,11 @@ check("C11", "exploration",
       "front and at the back of that shard's input; both copies away from the original; a triple; two different duplicated reports; "
       "and the duplicate-free inputs. Oracle per helper: the shard the duplicated report is routed to (first 16 bytes of the match-key "
       "ciphertext, little-endian, modulo the shard count - computed from the raw bytes) fails with DuplicateBytes and the helper does "
-      "not complete; duplicate-free inputs are never answered with DuplicateBytes. Component arm: UniqueTagValidator on tag pairs "
+      "not complete; duplicate-free inputs are never answered with DuplicateBytes and run to completion on every shard. Component arm: UniqueTagValidator on tag pairs "
       "differing in each of the 128 bits, shard_picker against u128 arithmetic. distinct_nontrivial = inputs executed.",
       [{"name": "duplicates", "config": "A", "test": "query::runner::verif::c11::run", "timeout": {"quick": 900, "thorough": 3600},
         "require": {"any": {"duplicate-rejected": 20, "distinct-not-rejected": 3, "tag_validator_cases": 128}}}],
-      assumptions=["a duplicate-free query whose shards run dry hangs (known finding of C01); only the absence of a duplicate error is required there",
-                   "the exchange of tags between shards is schedule-independent (C19)"],
+      assumptions=["the exchange of tags between shards is schedule-independent (C19)"],
       exhaustive=True, engine="E5 domain",
       technique="bounded exhaustive enumeration of duplicate placements (report x shard of the copy x position) executed on the real "
                 "query runner over a sharded in-memory world",
